@@ -112,8 +112,11 @@ pub fn run(scenario: &str, input: &Value) -> Option<(bool, Value)> {
                 reg.insert(p2.clone(), ProcessHandle::new(p2.clone(), tx)).await;
                 let name = Atom::new(input["name"].as_str().unwrap_or("svc"));
                 let r1 = reg.register(name.clone(), p1.clone()).await.is_ok();
+                let extra: Vec<Atom> = input.get("extra_names").and_then(|v| v.as_array()).map(|a| a.iter().map(|x| Atom::new(x.as_str().unwrap())).collect()).unwrap_or_default();
+                for e in &extra { let _ = reg.register(e.clone(), p1.clone()).await; }
                 reg.remove(&p1).await;
-                let still = reg.whereis(&name).await.is_some();
+                let mut still = reg.whereis(&name).await.is_some();
+                for e in &extra { still |= reg.whereis(e).await.is_some(); }
                 let again = reg.register(name.clone(), p2.clone()).await.is_ok();
                 let now = reg.whereis(&name).await == Some(p2.clone());
                 (r1 && !still && again && now, json!({"registered": r1, "resolves_after_exit": still, "can_register_again": again}))
